@@ -930,3 +930,90 @@ func TestVerif_C04_DecompressTotal(t *testing.T) {
 		r.Inconclusive(fmt.Sprintf("slowest returning call took %v: the machine is too slow for the 20 s rule to separate a hang from a slow call", time.Duration(maxDurNs)))
 	}
 }
+
+// TestVerif_C04_HashDeepIncrement searches, with the monitor's own field
+// arithmetic, for messages whose first candidates x = sha256(m) mod p + k are
+// all off the curve for many consecutive k, and runs G1HashToPoint on the
+// deepest ones found: try-and-increment has no a-priori bound, so a point on
+// the curve must come back however long the search is.
+func TestVerif_C04_HashDeepIncrement(t *testing.T) {
+	r := verifkit.Start(t, "C04", "hash_deep_increment")
+	defer r.Finish()
+	r.SetRule("messages 'verif-<seed>-<i>' scanned with the monitor's own residue test for the number of increments try-and-increment needs; G1HashToPoint is called on every message needing >= 10 increments (about 1 in 1000) and must return a deterministic point on the curve. non-trivial = the call needed >= 10 increments; evidence reports the deepest search seen")
+	scan := r.N(400000, 6000000)
+	type hard struct {
+		m    []byte
+		incs int
+	}
+	var mu sync.Mutex
+	var hards []hard
+	var maxIncs int64
+	chunk := 2000
+	verifkit.Parallel(scan/chunk, 0, func(ci int) {
+		var local []hard
+		for i := ci * chunk; i < (ci+1)*chunk; i++ {
+			m := []byte(fmt.Sprintf("verif-%d-%d", r.Seed(), i))
+			h := sha256.Sum256(m)
+			x := c04Mod(new(big.Int).SetBytes(h[:]))
+			k := 0
+			for ; k < 64; k++ {
+				if c04IsResidue(c04G1RHS(x)) {
+					break
+				}
+				x = c04Mod(new(big.Int).Add(x, big.NewInt(1)))
+			}
+			if k >= 10 {
+				local = append(local, hard{m, k})
+			}
+		}
+		mu.Lock()
+		hards = append(hards, local...)
+		mu.Unlock()
+	})
+	r.Count("messages_scanned", int64(scan))
+	verifkit.Parallel(len(hards), 0, func(i int) {
+		hd := hards[i]
+		desc := fmt.Sprintf("hash-deep m=%q increments=%d", hd.m, hd.incs)
+		var a, b *bn256.G1
+		res := c04Call(r, "hash:", desc, func() {
+			a = G1HashToPoint(append([]byte(nil), hd.m...))
+			b = G1HashToPoint(append([]byte(nil), hd.m...))
+		})
+		r.Case(desc, true)
+		for {
+			cur := atomic.LoadInt64(&maxIncs)
+			if int64(hd.incs) <= cur || atomic.CompareAndSwapInt64(&maxIncs, cur, int64(hd.incs)) {
+				break
+			}
+		}
+		if !res.returned {
+			r.Violation("hash:hang", "G1HashToPoint did not return within 20 s", desc, res.witness())
+			return
+		}
+		if res.panicked {
+			return
+		}
+		if a == nil || b == nil {
+			r.Violation("hash:nil", "G1HashToPoint returned nil", desc, nil)
+			return
+		}
+		var am, bm []byte
+		if r.Guard("hash:", desc, func() { am, bm = a.Marshal(), b.Marshal() }) {
+			return
+		}
+		if !bytes.Equal(am, bm) {
+			r.Violation("hash:nondeterministic", "two calls on the same input differ", desc, nil)
+		}
+		if ok, why := c04G1OnCurve(am); !ok {
+			r.Violation("hash:not-on-curve", "result is not a point of y^2=x^3+3: "+why, desc, verifkit.Hex(am))
+			return
+		}
+		// the point must also be usable: a scalar multiplication must not crash
+		r.Guard("hash:use:", desc, func() { _ = new(bn256.G1).ScalarMult(a, big.NewInt(7)) })
+		if i < 3 {
+			r.Sample(map[string]interface{}{"m": string(hd.m), "increments_needed": hd.incs, "point": verifkit.Hex(am)})
+		}
+	})
+	r.Count("deepest_increment_search", atomic.LoadInt64(&maxIncs))
+	r.Count("hard_messages", int64(len(hards)))
+}
